@@ -4,3 +4,33 @@ claim("C19",
       "Generated-input search: every estimator/smoother is run on thousands of generated vectors per run (ties, outliers, symmetric, constant, NaN, weight families) and compared with an independent restatement of its published formula plus the range / equivariance / invariance clauses of the statement. Sampling, not proof; right level because the property quantifies over all float vectors and the oracles are exact.",
       "Trusted: numpy median/sort, the restated formulas in vk/models.py; metamorphic clauses only on exactly representable shifts; ties at branch thresholds accept either branch.",
       "DESIGN.md 5/C19")
+claim("C01",
+      "bounded-exhaustive grid + property-based testing (Hypothesis) against the mixing-model inverse restated in the harness",
+      "Every (ploidy, reference sex, sample sex, naming, PAR genome, purity-grid) configuration x n in 0..12 x chromosome class is enumerated (1872 do_call runs, exhaustive for that grid) and generated purities/log2 values extend it; cn must equal the planted n, log2 must be rewritten to the pure ratio, cn must be a non-negative integer for arbitrary log2. Exhaustive on the grid, sampling beyond it.",
+      "Trusted: the r/x table restated from the statement; purities >= 1e-6; tie values at .5 accept either rounding.",
+      "DESIGN.md 5/C01")
+claim("C02",
+      "property-based testing (Hypothesis) with constructed boundary probes against the step-function definition",
+      "Threshold vectors, ploidies and reference sexes are generated; probe log2 values are constructed at every threshold, the adjacent doubles, every integer crossing of r*2^log2, random reals and NaN, and each row is compared with the definition restated in the harness; allelic split clauses checked for generated BAFs.",
+      "Trusted: the restated definition; monotone corollary asserted for ploidy >= 2 only (the definition contradicts it at ploidy 1).",
+      "DESIGN.md 5/C02")
+claim("C06",
+      "bounded-exhaustive small-scope enumeration + property-based testing against base-pair run algebra",
+      "All pairs of multisets of <=2 intervals over 0..4 (quick) / <=2 x <=3 over 0..6 (thorough) in four chromosome/gene variants plus generated relation-biased tables up to 40 rows; merge/flatten/subtract/intersection/subdivide/resize/total_range_size compared with an independent run-algebra model. Exhaustive in the stated small scope, sampling beyond.",
+      "Trusted: vk/models.py run algebra; tables sorted as tabio.read gives them; chromosome sizes >= ends.",
+      "DESIGN.md 5/C06")
+claim("C07",
+      "bounded-exhaustive small-scope enumeration + property-based testing against the textbook overlap/containment inequalities",
+      "Every (table, query) pair in the small scope and generated nested/duplicated/abutting tables with repeated queries, absent chromosomes, non-default index; by_ranges, intersection, iter_ranges_of, in_range(s), into_ranges compared row by row with the inequalities on a row-id column.",
+      "Trusted: the select() model; sorted tables; iter_ranges_of not exercised with trim.",
+      "DESIGN.md 5/C07")
+claim("C14",
+      "property-based testing (Hypothesis) against an independent run-squashing model, directly and through do_call filter lists",
+      "Generated segment tables (sticky cn runs, CI/SEM around zero, zero weights, allelic cn with NaN) are filtered by each filter directly and by ordered filter lists through do_call with every method; outputs compared with a model that squashes maximal runs of equal (chromosome, level) and with direct conservation clauses.",
+      "Trusted: squash model; cnvkit's own call for copy numbers inside filter lists (C01/C02); weighted_median (C19).",
+      "DESIGN.md 5/C14")
+claim("C20",
+      "property-based testing (Hypothesis): exported BED/VCF/SEG/JTV/CDT/Nexus records re-derived row by row from the generated calls",
+      "Generated segment tables (with/without cn, autosome/X/Y/PAR rows, start 0) and 1..5-sample file sets (mismatching bins, duplicate IDs) are exported; the harness parses the output back and re-derives which records must appear and what each field must say.",
+      "Trusted: r/x table shared with C01; integer probes; PAR rows excluded where BED and VCF paths use different reference copies for cn-less tables.",
+      "DESIGN.md 5/C20")
